@@ -150,7 +150,10 @@ func driveC10(c *Ctx) {
 	}
 	n := run(nil, "healthy")
 	// malformed or unusual BaseURI options: an error is fine, a panic or hang is not
-	for _, b := range []string{"http://a.test/x.json#frag", "::bad", "relative/path.json", "urn:x:base", "http://[::1", "file:///tmp/x.json", "#"} {
+	// (none of them may name a document of the universe: with BaseURI file:///tmp/x.json a root whose
+	// in-place "$ref":"./x.json" is meant for another document refers to ITSELF in place - recursion
+	// that does not pass through an instance-descending keyword, which the property excludes)
+	for _, b := range []string{"http://a.test/not-a-document.json#frag", "::bad", "relative/path.json", "urn:x:base", "http://[::1", "file:///tmp/not-a-document.json", "#"} {
 		if c.W(3) != 0 {
 			continue
 		}
